@@ -2,6 +2,8 @@ package main
 
 import (
 	"encoding/json"
+	"fmt"
+	"math"
 	"os"
 	"sort"
 )
@@ -52,7 +54,41 @@ func (r *Result) Violate(kind, sig, detail string, replay any) {
 	if n >= 3 {
 		return
 	}
-	r.Violations = append(r.Violations, Violation{Kind: kind, Signature: sig, Detail: detail, Replay: replay})
+	r.Violations = append(r.Violations, Violation{Kind: kind, Signature: sig, Detail: detail, Replay: jsonSafe(replay)})
+}
+
+// jsonSafe makes a replay payload encodable: encoding/json refuses NaN and the infinities, so a
+// non-finite float becomes its bit pattern as a string.
+func jsonSafe(v any) any {
+	switch x := v.(type) {
+	case float64:
+		if math.IsNaN(x) || math.IsInf(x, 0) {
+			return fmt.Sprintf("float64bits:%#016x (%v)", math.Float64bits(x), x)
+		}
+		return x
+	case []float64:
+		out := make([]any, len(x))
+		for i, e := range x {
+			out[i] = jsonSafe(e)
+		}
+		return out
+	case map[string]any:
+		out := make(map[string]any, len(x))
+		for k, e := range x {
+			out[k] = jsonSafe(e)
+		}
+		return out
+	case []any:
+		out := make([]any, len(x))
+		for i, e := range x {
+			out[i] = jsonSafe(e)
+		}
+		return out
+	}
+	if _, err := json.Marshal(v); err != nil {
+		return fmt.Sprintf("%+v", v)
+	}
+	return v
 }
 
 func (r *Result) Write(path string) {
@@ -62,7 +98,10 @@ func (r *Result) Write(path string) {
 		keys = append(keys, k)
 	}
 	sort.Strings(keys)
-	b, _ := json.MarshalIndent(r, "", " ")
+	b, err := json.MarshalIndent(r, "", " ")
+	if err != nil {
+		fatal("encode result: %v", err)
+	}
 	if path == "" || path == "-" {
 		os.Stdout.Write(b)
 		os.Stdout.WriteString("\n")
